@@ -74,6 +74,42 @@ func genCLI(out *bufio.Writer, rng *rand.Rand, count int) int {
 		return 0
 	}
 	defer os.RemoveAll(dir)
+	presetLines(out)
+	// invocations the tool refuses: exit status 1 and nothing on standard output
+	{
+		good := filepath.Join(dir, "good.red")
+		os.WriteFile(good, []byte("mov 0, 1\n"), 0o644)
+		refusals := [][]string{
+			{good, good, good}, // only two warriors are supported
+			{},                 // no warrior
+			{filepath.Join(dir, "does-not-exist.red")},  // cannot be opened
+			{good, filepath.Join(dir, "missing-2.red")}, // the second cannot be opened
+			{"-preset", "bogus", good},
+			{"-r", "3", good, good, good, good},
+		}
+		for i, a := range refusals {
+			ctx, cancel := context.WithTimeout(context.Background(), 30*time.Second)
+			cmd := exec.CommandContext(ctx, bin, a...)
+			var so bytes.Buffer
+			cmd.Stdout = &so
+			err := cmd.Run()
+			cancel()
+			code := 0
+			if ee, ok := err.(*exec.ExitError); ok {
+				code = ee.ExitCode()
+			} else if err != nil {
+				code = -3
+			}
+			// an unopenable file is reported on standard output by the tool: only result lines count
+			results := 0
+			for _, l := range strings.Split(so.String(), "\n") {
+				if resultLine.MatchString(strings.TrimSpace(l)) {
+					results++
+				}
+			}
+			fmt.Fprintf(out, "Y yr%d C17:refusal %d | exit=1 results=0 ## exit=%d results=%d\n", i, i, code, results)
+		}
+	}
 	for n := 0; n < count; n++ {
 		legacy := rng.Intn(4) == 0
 		ln := 1 + rng.Intn(8)
@@ -96,6 +132,9 @@ func genCLI(out *bufio.Writer, rng *rand.Rand, count int) int {
 			if fixed == 0 {
 				fixed = ln
 			}
+		}
+		if rng.Intn(25) == 0 {
+			fixed = 1 // the smallest fixed placement (0 means random)
 		}
 		if rng.Intn(8) == 0 {
 			// placements at and above the core size (SpawnWarrior reduces them modulo the core)
